@@ -308,14 +308,21 @@ func raceSolvers(specs []solverSpec, query string, timeoutS int, all bool) Solve
 		}
 	}
 	if final.Result == "unknown" {
-		to := true
+		to, er := true, len(final.All) > 0
 		for _, v := range final.All {
 			if v != "timeout" {
 				to = false
 			}
+			if v != "error" {
+				er = false
+			}
 		}
 		if to {
 			final.Result = "timeout"
+		}
+		if er {
+			// every back end rejected the query: a defect of the generator, not of the code
+			final.Result = "error"
 		}
 	}
 	return final
